@@ -121,9 +121,17 @@ fn dispatch_family(st: &mut Stats, maxlen: usize) {
             // (a) as a host pattern: the sub-app answers iff the pattern matches the Host value, else the default app
             // (`*` alone is the default application's own host and is refused by with_host: asked as `**`)
             let host_pat = if ps == "*" { "**".to_string() } else { ps.clone() };
-            let as_host = build(&Cfg { hosts: vec![(host_pat, vec!["/*".into()], vec![])], default_routes: vec!["/*".into()], default_ws: vec![] }).verif_into_parts();
-            // (b) as a route pattern: that route answers iff it matches the path, else the catch-all registered after it
-            let as_route = build(&Cfg { hosts: vec![], default_routes: vec![format!("/{}", ps), "/*".into()], default_ws: vec![] }).verif_into_parts();
+            let built = std::panic::catch_unwind(std::panic::AssertUnwindSafe(|| {
+                (
+                    build(&Cfg { hosts: vec![(host_pat.clone(), vec!["/*".into()], vec![])], default_routes: vec!["/*".into()], default_ws: vec![] }).verif_into_parts(),
+                    // (b) as a route pattern: that route answers iff it matches the path, else the catch-all registered after it
+                    build(&Cfg { hosts: vec![], default_routes: vec![format!("/{}", ps), "/*".into()], default_ws: vec![] }).verif_into_parts(),
+                )
+            }));
+            let Ok((as_host, as_route)) = built else {
+                s.violation("[dispatch] registering a host or route pattern panicked", || json!({"pattern": ps}));
+                return s;
+            };
             for t in &texts {
                 let ts: String = t.iter().collect();
                 let m = glob_ref(p, t);
